@@ -151,3 +151,210 @@ func VH_C08_SiblingTypes() {
 	}
 	vhReach("sibling-types-done")
 }
+
+// Sibling isolation after a reload: containers decoded from one register may
+// share decoder-side tables (type information, digests, keys). A content
+// mutation of ONE nested child through a handle obtained after the reload
+// changes that child only: every sibling keeps its content, warm and cold runs
+// agree, both stay structurally valid and commit to identical registers.
+//
+//vh:prop C08 C10
+//vh:init cbor
+//vh:sched first
+//vh:param children 2 3
+func VH_C08_SiblingIsolation() {
+	vhSetThreshold(256)
+	nchild := 2 + vhChoose("nchild", vhParam("children", 2)-1)
+	kind := vhChoose("kind", 3) // arrays, maps, same-typed composite maps (compact encoding)
+	mapChildren := kind >= 1
+	var childType TypeInfo = vTypeInfo{id: 43}
+	if kind == 2 {
+		childType = vCompositeTypeInfo{id: 7}
+	}
+	mapParent := vhChoose("parentkind", 2) == 1
+	addr := vhAddr(1)
+	cvals := make([][2]uint64, nchild)
+	for c := range cvals {
+		cvals[c][0] = vhRange("cval", 0, 300) // 1-, 2- and 3-byte encodings
+		cvals[c][1] = uint64(1000 + c)
+	}
+	type run struct {
+		base *vBase
+		st   *PersistentSlabStorage
+		pa   *Array
+		pm   *OrderedMap
+	}
+	mk := func() *run {
+		r := &run{base: newVBase()}
+		r.st = vhNewPersistentB(r.base)
+		if mapParent {
+			r.pm, _ = NewMap(r.st, addr, NewDefaultDigesterBuilder(), vTypeInfo{id: 42})
+		} else {
+			r.pa, _ = NewArray(r.st, addr, vTypeInfo{id: 42})
+		}
+		for c := 0; c < nchild; c++ {
+			var child Value
+			if mapChildren {
+				m, _ := NewMap(r.st, addr, NewDefaultDigesterBuilder(), childType)
+				_, _ = m.Set(vhCompareBK, vhHipB, vBKey{val: 100}, vU64(cvals[c][0]))
+				_, _ = m.Set(vhCompareBK, vhHipB, vBKey{val: 101}, vU64(cvals[c][1]))
+				child = m
+			} else {
+				a, _ := NewArray(r.st, addr, vTypeInfo{id: 43})
+				_ = a.Append(vU64(cvals[c][0]))
+				_ = a.Append(vU64(cvals[c][1]))
+				child = a
+			}
+			if mapParent {
+				_, _ = r.pm.Set(vhCompareBK, vhHipB, vBKey{val: uint64(c + 1)}, child)
+			} else {
+				_ = r.pa.Append(child)
+			}
+		}
+		return r
+	}
+	reopen := func(r *run, st *PersistentSlabStorage, rootID SlabID) bool {
+		r.st = st
+		if mapParent {
+			m, err := NewMapWithRootID(st, rootID, NewDefaultDigesterBuilder())
+			vhAssert(err == nil, "reopen parent map")
+			r.pm = m
+			return err == nil
+		}
+		a, err := NewArrayWithRootID(st, rootID)
+		vhAssert(err == nil, "reopen parent array")
+		r.pa = a
+		return err == nil
+	}
+	child := func(r *run, c int) (Value, bool) {
+		var v Value
+		var err error
+		if mapParent {
+			v, err = r.pm.Get(vhCompareBK, vhHipB, vBKey{val: uint64(c + 1)})
+		} else {
+			v, err = r.pa.Get(uint64(c))
+		}
+		vhAssert(err == nil, "get child")
+		return v, err == nil
+	}
+	// read field k (0/1) of a child; ok=false if absent
+	field := func(v Value, k int) (uint64, bool) {
+		switch x := v.(type) {
+		case *Array:
+			if uint64(k) >= x.Count() {
+				return 0, false
+			}
+			e, err := x.Get(uint64(k))
+			if err != nil {
+				return 0, false
+			}
+			u, ok := e.(vU64)
+			return uint64(u), ok
+		case *OrderedMap:
+			e, err := x.Get(vhCompareBK, vhHipB, vBKey{val: uint64(100 + k)})
+			if err != nil {
+				return 0, false
+			}
+			u, ok := e.(vU64)
+			return uint64(u), ok
+		}
+		return 0, false
+	}
+	warm, cold := mk(), mk()
+	var rootID SlabID
+	if mapParent {
+		rootID = warm.pm.SlabID()
+	} else {
+		rootID = warm.pa.SlabID()
+	}
+	vhAssert(cold.st.FastCommit(1) == nil, "commit")
+	if vhChoose("schedule", 2) == 0 {
+		cold.st.DropCache()
+		if !reopen(cold, cold.st, rootID) {
+			return
+		}
+	} else if !reopen(cold, vhNewPersistentB(cold.base), rootID) {
+		return
+	}
+	target := vhChoose("target", nchild)
+	op := vhChoose("op", 3)
+	newv := vhRange("newval", 0, 300)
+	for _, r := range []*run{warm, cold} {
+		v, ok := child(r, target)
+		if !ok {
+			return
+		}
+		switch x := v.(type) {
+		case *Array:
+			switch op {
+			case 0:
+				s, err := x.Remove(0)
+				vhAssert(err == nil, "child remove")
+				_ = s
+			case 1:
+				_, err := x.Set(0, vU64(newv))
+				vhAssert(err == nil, "child set")
+			case 2:
+				vhAssert(x.Append(vU64(newv)) == nil, "child append")
+			}
+		case *OrderedMap:
+			switch op {
+			case 0:
+				_, _, err := x.Remove(vhCompareBK, vhHipB, vBKey{val: 100})
+				vhAssert(err == nil, "child remove field")
+			case 1:
+				_, err := x.Set(vhCompareBK, vhHipB, vBKey{val: 100}, vU64(newv))
+				vhAssert(err == nil, "child overwrite field")
+			case 2:
+				_, err := x.Set(vhCompareBK, vhHipB, vBKey{val: 999}, vU64(newv))
+				vhAssert(err == nil, "child add field")
+			}
+		}
+	}
+	check := func(r *run, what string) {
+		for c := 0; c < nchild; c++ {
+			v, ok := child(r, c)
+			if !ok {
+				return
+			}
+			if c == target {
+				continue
+			}
+			for k := 0; k < 2; k++ {
+				got, ok := field(v, k)
+				vhAssert(ok, what+": sibling fields stay readable")
+				if ok {
+					vhAssert(got == cvals[c][k], what+": sibling content unchanged")
+				}
+			}
+		}
+		// the target agrees between runs (compared below) and the parent is valid
+		if mapParent {
+			vhAssert(VerifyMap(r.pm, addr, vTypeInfo{id: 42}, vhTic, vhHipB, true) == nil, what+": parent valid")
+		} else {
+			vhAssert(VerifyArray(r.pa, addr, vTypeInfo{id: 42}, vhTic, vhHipB, true) == nil, what+": parent valid")
+		}
+	}
+	check(warm, "warm")
+	check(cold, "reloaded")
+	wv, _ := child(warm, target)
+	cv, _ := child(cold, target)
+	for k := 0; k < 2; k++ {
+		a, aok := field(wv, k)
+		b, bok := field(cv, k)
+		vhAssert(aok == bok, "target child: same fields warm and reloaded")
+		if aok && bok {
+			vhAssert(a == b, "target child: same values warm and reloaded")
+		}
+	}
+	vhAssert(warm.st.FastCommit(1) == nil, "final commit (warm)")
+	vhAssert(cold.st.FastCommit(1) == nil, "final commit (cold)")
+	if kind != 2 {
+		// (registers of compact maps may legitimately differ after a reload)
+		vhSameRegisters(warm.base, cold.base, "final ledger")
+	}
+	if reopen(cold, vhNewPersistentB(cold.base), rootID) {
+		check(cold, "reopened after commit")
+	}
+	vhReach("sibling-isolation-done")
+}
